@@ -34,7 +34,7 @@
 (*                 brace (or `;`), and per top-level `if`, in order, the lines of    *)
 (*                 the opening and the closing parenthesis of its condition          *)
 (*   rec.observed = [panic, api : Seq(Finding),                                      *)
-(*                   cli : [failed, wellformed, grouped, list : Seq(Finding),        *)
+(*                   cli : [ran, failed, wellformed, grouped, list : Seq(Finding),   *)
 (*                          groups : Seq([key, items : Seq(Finding)])]]              *)
 (*     Finding  = [kind, file, line, size]   (line 0 = the finding names no line)    *)
 (*   `api` = BadSmellApp.AnalysisPath + IdentifyBadSmell(ignore) in process,         *)
@@ -244,7 +244,8 @@ Diff(rec) ==
   IN  IF ~FactsOK(in, fa) THEN {Item("harness-bad-facts", "")}
       ELSE
         (IF o.panic THEN {Item("panic", "api")} ELSE FlatDiff(in, fa, o.api, "api")) \cup
-        (IF o.cli.failed THEN {Item("cli-failed", "")}
+        (IF ~o.cli.ran THEN (IF in.sort THEN {Item("harness-sort-not-observed", "")} ELSE {})
+         ELSE IF o.cli.failed THEN {Item("cli-failed", "")}
          ELSE IF ~o.cli.wellformed THEN {Item("malformed-report", "")}
          ELSE IF in.sort
               THEN (IF ~o.cli.grouped THEN {Item("not-grouped", "")}
